@@ -144,16 +144,14 @@ impl RollingChecksum {
         let old = u32::from(old_byte);
         let new = u32::from(new_byte);
 
-        // Update a: remove old, add new
-        self.a = (self.a.wrapping_sub(old).wrapping_add(new)) % Self::MOD;
+        // Update a: remove old, add new (+MOD keeps the difference non-negative;
+        // a wrapped subtraction is not congruent mod MOD)
+        self.a = (self.a + Self::MOD - old + new) % Self::MOD;
 
         // Update b: remove old's contribution (it was weighted by count), add new a
-        // Truncation is intentional: checksum uses 32-bit arithmetic
-        self.b = (self
-            .b
-            .wrapping_sub(self.count as u32 * old)
-            .wrapping_add(self.a))
-            % Self::MOD;
+        let m = u64::from(Self::MOD);
+        let removed = ((self.count as u64 % m) * u64::from(old)) % m;
+        self.b = ((u64::from(self.b) + m - removed + u64::from(self.a)) % m) as u32;
 
         debug_assert!(self.a < Self::MOD, "a must be < MOD after roll");
         debug_assert!(self.b < Self::MOD, "b must be < MOD after roll");
